@@ -298,7 +298,12 @@ func (w *World) RotationFile() (name, content string) {
 	if w.Decoys > 0 {
 		b.WriteString(line("ZZDECOY", decoy, csv) + e)
 	}
-	for _, r := range w.Rot {
+	for i, r := range w.Rot {
+		if i > 0 && w.CropAlias != nil {
+			if a, ok := w.CropAlias[r.Crop]; ok {
+				r.Crop, r.Variety = a, ""
+			}
+		}
 		b.WriteString(line(w.Field, r, csv) + e)
 	}
 	if w.Decoys > 1 {
@@ -448,6 +453,11 @@ func (w *World) AutoFile() string {
 	b.WriteString("crp Sow1 Sow2 har2 TSmin Smomin Smomax Hmomin Hmomax Rainav Rainact TACCU Tbase Irrdv1 Irrdv2 Ndem1 Ndem2 Ndem3 stage1 stage 2 stage 3 Twindow orgF  amount appdat Irrlow irrdep irrmax    " + e)
 	for i := range w.Auto {
 		b.WriteString(w.Auto[i].render(w.Cfg.DateFormat) + e)
+		if a, ok := w.CropAlias[w.Auto[i].Crop]; ok {
+			al := w.Auto[i]
+			al.Crop = a
+			b.WriteString(al.render(w.Cfg.DateFormat) + e)
+		}
 	}
 	return b.String()
 }
@@ -654,6 +664,57 @@ func WriteFiles(root string, fs FileSet, paramDir string) error {
 	if _, err := os.Lstat(link); err != nil && paramDir != "" {
 		if err := os.Symlink(paramDir, link); err != nil {
 			return err
+		}
+	}
+	return nil
+}
+
+// customParamFolder creates <root>/pcustom: a copy of the parameter folder in which every custom crop code of the
+// worlds has the files and table lines of its base crop.
+func customParamFolder(root, paramDir string, worlds []*World) error {
+	need := false
+	for _, w := range worlds {
+		if len(w.CropAlias) > 0 {
+			need = true
+		}
+	}
+	if !need {
+		return nil
+	}
+	dst := filepath.Join(root, "pcustom")
+	if err := copyDir(paramDir, dst); err != nil {
+		return err
+	}
+	for _, w := range worlds {
+		bases := make([]string, 0, len(w.CropAlias))
+		for b := range w.CropAlias {
+			bases = append(bases, b)
+		}
+		sort.Strings(bases)
+		for _, base := range bases {
+			alias := w.CropAlias[base]
+			for _, ext := range []string{"", ".yml"} {
+				if b, err := os.ReadFile(filepath.Join(paramDir, "PARAM."+base+ext)); err == nil {
+					os.WriteFile(filepath.Join(dst, "PARAM."+alias+ext), b, 0o644)
+				}
+			}
+			for _, table := range []string{"CROP_N.TXT", "EVAPO.HAU"} {
+				b, err := os.ReadFile(filepath.Join(dst, table))
+				if err != nil {
+					return err
+				}
+				lines := strings.Split(string(b), "\n")
+				var out []string
+				done := false
+				for _, l := range lines {
+					out = append(out, l)
+					if !done && len(l) > 4 && strings.TrimSpace(l[:3]) == base && l[3] == ' ' {
+						out = append(out, pad(alias, 3)+l[3:])
+						done = true
+					}
+				}
+				os.WriteFile(filepath.Join(dst, table), []byte(strings.Join(out, "\n")), 0o644)
+			}
 		}
 	}
 	return nil
